@@ -31,12 +31,14 @@ ASSUMPTIONS = [
     "big endian words: valid lanes are the low lanes of int.from_bytes(chunk, 'big') (the class's own convention)",
 ]
 BOUNDS = "BMC from reset, K = 2*words+8 (two back-to-back transmissions fit), start/ready/max_length/start_position " \
-         "free every cycle; constants of 1..6 bytes (8 bit) and 1..9 bytes (32 bit, 4 valid bits), little/big endian, " \
+         "free every cycle; constants of 2..6 bytes (8 bit) and 5..12 bytes (32 bit, 4 valid bits), little/big endian, " \
          "with and without max_length; serializer lengths 1..4 with and without max_length"
 OUTSIDE = "start_position beyond the data (clamped by the DUT; behaviour unspecified by the statement); " \
           "output_length is only checked for start_position == 0 (its documentation ignores start_position; " \
           "for start_position > 0 it reports min(max_length, total length), not the number of bytes sent); " \
-          "data widths other than 8/32; non-bytes initialisers; constants longer than 9 bytes"
+          "data widths other than 8/32; non-bytes initialisers; constants longer than 12 bytes; constants that fit " \
+          "one ROM word (1 byte at width 8, 1..4 bytes at width 32: the depth-1 memory has a zero-width address " \
+          "that the NIR->z3 translator does not handle)"
 
 
 def _words(data, bpw, endian):
@@ -60,7 +62,7 @@ class GenHarness(Harness):
         if kind == "const":
             st = SuperSpeedStreamInterface if width == 32 else USBInStreamInterface
             self.dut = ConstantStreamGenerator(bytes(data), domain="usb", stream_type=st, max_length_width=maxw,
-                                               data_width=width, data_endianness=endian)
+                                               data_width=(None if width == 32 else 8), data_endianness=endian)
             self.total = len(data)
             self.words = _words(data, self.bpw, endian)
         else:
@@ -83,7 +85,9 @@ class GenHarness(Harness):
         self.v = {n: self.viol(n) for n in names}
         cov = ["first", "last", "done", "stall_last", "restart", "end_by_data"]
         if self.nwords > 1:
-            cov += ["sp_nonzero", "middle"]
+            cov += ["sp_nonzero"]
+        if self.nwords > 2:
+            cov += ["middle"]
         if maxw:
             cov += ["zero_len"]
             if self.total >= 2:
@@ -212,6 +216,7 @@ class GenHarness(Harness):
         ]
         if "sp_nonzero" in c:
             m.d.comb += c["sp_nonzero"].eq(dut.done & (g_sp != 0))
+        if "middle" in c:
             m.d.comb += c["middle"].eq(accept & ~g_first & ~exp_last)
         if "zero_len" in c:
             m.d.comb += c["zero_len"].eq(g_zero)
@@ -230,21 +235,53 @@ class GenHarness(Harness):
         return d
 
 
+class ElabProbe(Harness):
+    """The class documents max_length_width as optional (default None).  This probe elaborates the real class
+    without it; an exception during elaboration is reported as a violation (constant viol output)."""
+    domains = ("usb",)
+
+    def __init__(self, width=8):
+        super().__init__()
+        self.failed = _elab_error(width)
+        self.v = self.viol("elaborates_without_max_length")
+        self.c = self.cover("probe_ran")
+        self.tick = self.inp("tick", 1)
+
+    def elaborate(self, platform):
+        m = Module()
+        ctr = Signal(2, name="probe_ctr")
+        m.d.usb += ctr.eq(ctr + self.tick)
+        m.d.comb += [self.v.eq(1 if self.failed else 0), self.c.eq(ctr == 1)]
+        return m
+
+
+def _elab_error(width=8):
+    from amaranth.hdl import Fragment
+    from luna.gateware.stream.generator import ConstantStreamGenerator
+    from luna.gateware.usb.stream import SuperSpeedStreamInterface, USBInStreamInterface
+    try:
+        st = SuperSpeedStreamInterface if width == 32 else USBInStreamInterface
+        Fragment.get(ConstantStreamGenerator(b"\x01\x02\x03\x04\x05", domain="usb", stream_type=st), None)
+        return None
+    except Exception as e:                       # noqa: any elaboration failure is the finding
+        return f"{type(e).__name__}: {e}"
+
+
 def _bytes(n, seed):
-    # pairwise distinct, non-zero, no byte equal to an index
+    # pairwise distinct, non-zero
     return bytes(((seed + 37 * i) % 251) + 1 for i in range(n))
 
 
 def _configs(tier):
     cfgs = []
-    # (tag, kwargs)
-    q8 = [(5, 4), (6, None), (1, 2), (4, 3)]
-    q32 = [(7, "little", 4), (6, "big", None), (8, "little", 4), (5, "big", 4), (3, "little", 2)]
-    qser = [(2, 2), (3, None), (4, 3), (1, 1)]
+    # (length, max_length_width) / (length, endianness, max_length_width)
+    q8 = [(5, 4), (6, None), (2, 2)]
+    q32 = [(7, "little", 4), (6, "big", None), (8, "little", 4), (9, "big", 4)]
+    qser = [(2, 2), (3, None), (4, 3)]
     if tier != "quick":
-        q8 += [(n, mw) for n in (2, 3, 4, 5, 6) for mw in (None, 3)] + [(1, None), (3, 2)]
-        q32 += [(n, e, mw) for n in range(1, 10) for e in ("little", "big") for mw in (None, 4)]
-        qser += [(n, mw) for n in (1, 2, 3, 4) for mw in (None, 2, 3)]
+        q8 += [(n, mw) for n in (2, 3, 4, 5, 6) for mw in (None, 3)] + [(3, 2), (4, 3)]
+        q32 += [(n, e, mw) for n in range(5, 13) for e in ("little", "big") for mw in (None, 4)] + [(5, "little", 2)]
+        qser += [(n, mw) for n in (1, 2, 3, 4) for mw in (None, 2, 3)] + [(1, 1)]
     seen = set()
     for n, mw in q8:
         if ("c8", n, mw) in seen:
@@ -267,11 +304,16 @@ def _configs(tier):
 
 
 def queries(tier):
-    qs = []
+    qs = [Query("probe_elab_nomax", ElabProbe, 2,
+                desc="ConstantStreamGenerator(max_length_width=None) -- the constructor default -- must elaborate")]
+    broken = _elab_error() is not None
     for tag, kw, nwords in _configs(tier):
+        if broken and kw["kind"] == "const" and kw["maxw"] is None:
+            continue    # cannot be elaborated on this tree; reported by probe_elab_nomax
         f = (lambda kw=kw: GenHarness(**kw))
         K = 2 * nwords + (8 if tier == "quick" else 10)
-        qs.append(Query(f"bmc_{tag}", f, K, timeout=300,
+        qs.append(Query(f"bmc_{tag}", f, K, timeout=300, split=False,
                         desc=f"{tag}: start/ready/start_position/max_length free every cycle, two transmissions fit"))
-        qs.append(Query(f"cosim_{tag}", f, 0, kind="cosim", cosim_cycles=150 if tier == "quick" else 600))
+        if tier != "quick" or tag.split("_")[1] in ("len5", "len7", "len4"):
+            qs.append(Query(f"cosim_{tag}", f, 0, kind="cosim", cosim_cycles=150 if tier == "quick" else 600))
     return qs
